@@ -3,7 +3,7 @@
    Model: C06/Model.v (transcription of psutil/_pslinux.py, _psposix.get_terminal_map),
    specification: C06/Spec.v (kernel formats from proc(5) / fs/proc/array.c),
    generated table: Gen/C06_Tables.v (PROC_STATUSES of the tree under test). *)
-From PV Require Import C06.Spec C06.ProofsStat C06.ProofsThreads C06.ProofsStatus C06.ProofsTty C06.ProofsMisc C06.ProofsCodec.
+From PV Require Import C06.Spec C06.ProofsStat C06.ProofsThreads C06.ProofsStatus C06.ProofsTty C06.ProofsMisc C06.ProofsCodec C06.ProofsName.
 From Coq Require Import Permutation.
 
 (* /proc/<pid>/stat: for EVERY comm (any bytes, any length: spaces, parentheses,
@@ -89,6 +89,53 @@ Theorem C06_example_fs_decode :
   /\ fs_decode Utf8 (bs "a" ++ [226; 130] ++ bs ")" ++ [255; 237; 160; 128]) = [97; 56546; 56450; 41; 56575; 56557; 56480; 56448].
 Proof. exact fs_decode_cafe. Qed.
 Print Assumptions C06_example_fs_decode.
+
+(* the public name() on ONE object over time.  The object remembers its last answer (self._name);
+   on POSIX no read path may consult it: the answer is the same whatever is remembered ... *)
+Theorem C06_name_step_memoryless : forall mem mem' k,
+  fst (name_step false mem k) = fst (name_step false mem' k).
+Proof. exact name_step_memoryless. Qed.
+Print Assumptions C06_name_step_memoryless.
+
+(* ... so every answer of a history (any length, any sequence of kernel states: exec to a program
+   sharing the 15-byte comm, argv[0] matching or not, zombie, cmdline denied or gone, PID reuse)
+   is a function of the kernel state at that moment only ... *)
+Theorem C06_name_hist_independent : forall mem ks,
+  name_hist false mem ks = map (fun k => fst (name_step false None k)) ks.
+Proof. exact name_hist_independent. Qed.
+Print Assumptions C06_name_hist_independent.
+
+Theorem C06_name_hist_any_past : forall mem mem' ks, name_hist false mem ks = name_hist false mem' ks.
+Proof. exact name_hist_any_past. Qed.
+Print Assumptions C06_name_hist_any_past.
+
+(* ... namely the documented one: comm, or the base name of argv[0] when comm is >= 15 bytes and
+   that name starts with it; comm for a zombie or a denied cmdline *)
+Theorem C06_name_now_exact : forall mem k x,
+  wf_kstat (n_stat k) = true -> spec_name_now k = Some x ->
+  fst (name_step false mem (now_state k)) = Val x.
+Proof. exact name_now_exact. Qed.
+Print Assumptions C06_name_now_exact.
+
+Theorem C06_name_hist_exact : forall mem ks xs,
+  forallb (fun k => wf_kstat (n_stat k)) ks = true ->
+  map spec_name_now ks = map Some xs ->
+  name_hist false mem (map now_state ks) = map Val xs.
+Proof. exact name_hist_exact. Qed.
+Print Assumptions C06_name_hist_exact.
+
+(* a front end that answers from its memory (the Windows branch, windows = true) IS history dependent *)
+Theorem C06_name_cached_refuted :
+  exists mem k, fst (name_step true mem k) <> fst (name_step true None k).
+Proof. exact name_cached_refuted. Qed.
+Print Assumptions C06_name_cached_refuted.
+
+Theorem C06_example_name_history :
+  forallb (fun k => wf_kstat (n_stat k)) ex_history = true /\
+  map spec_name_now ex_history
+  = map Some [bs "gnome-keyring-daemon"; bs "gnome-keyring-dump"; bs "gnome-keyring-d"; bs "gnome-keyring-d"; bs "gnome-keyring-d"].
+Proof. exact ex_history_spec. Qed.
+Print Assumptions C06_example_name_history.
 
 Theorem C06_ppid_exact : forall r d,
   wf_kstat r = true -> fld 4 r = Some d -> is_dec d = true -> ppid (k_stat r) = Val (dec_val d).
